@@ -7,7 +7,7 @@ import Dawn.Model.LineWriter
                                        → `<builder hex> <line hex>,<line hex>,…` (`.` when no line was printed)
     split <hex>                        → the specification's lines of a complete output
     ev  <deps> <flags>                 deps: string over o m c x (ok missing cyclic other), `.` = none;
-                                       flags: 8 chars 0/1 = upToDateErr always depsUpToDate upToDate rerun dryRun bodyOk saveOk
+                                       flags: 10 chars 0/1 = upToDateErr always depsUpToDate upToDate rerun dryRun isTarget preSaveOk bodyOk saveOk
                                        → `<events> <0|1 error>` events: string over U E S F, `.` = none
     evq <deps> <flags>                 → the events only
     evo <deps> <flags> <line> <chunk>,…  the same with the body writing these chunks (hex; `.` = none) to a line
@@ -47,23 +47,23 @@ def step (line : String) : String :=
     | none => "bad-input"
   | ["ev", deps, flags] =>
     match parseDeps deps, flags.toList.map (· == '1') with
-    | some ds, [a, b, c, d, e, f, g, h] =>
+    | some ds, [a, b, c, d, e, f, t, p, g, h] =>
       let r := Events.evaluate { deps := ds, upToDateErr := a, always := b, depsUpToDate := c, upToDate := d,
-                                 rerun := e, dryRun := f, bodyOk := g, saveOk := h }
+                                 rerun := e, dryRun := f, isTarget := t, preSaveOk := p, bodyOk := g, saveOk := h }
       showEvs r.1 ++ " " ++ (if r.2 then "1" else "0")
     | _, _ => "bad-input"
   | ["evq", deps, flags] =>
     match parseDeps deps, flags.toList.map (· == '1') with
-    | some ds, [a, b, c, d, e, f, g, h] =>
+    | some ds, [a, b, c, d, e, f, t, p, g, h] =>
       showEvs (Events.evaluate { deps := ds, upToDateErr := a, always := b, depsUpToDate := c, upToDate := d,
-                                 rerun := e, dryRun := f, bodyOk := g, saveOk := h }).1
+                                 rerun := e, dryRun := f, isTarget := t, preSaveOk := p, bodyOk := g, saveOk := h }).1
     | _, _ => "bad-input"
   | ["evo", deps, flags, init, chunks] =>
     match parseDeps deps, flags.toList.map (· == '1'), unhex init,
         (if chunks == "." then some [] else (chunks.splitOn ",").mapM fun h => (unhex h).map (·.toList)) with
-    | some ds, [a, b, c, d, e, f, g, h], some line, some cs =>
+    | some ds, [a, b, c, d, e, f, t, p, g, h], some line, some cs =>
       let r := Events.evaluateOut { deps := ds, upToDateErr := a, always := b, depsUpToDate := c, upToDate := d,
-                                    rerun := e, dryRun := f, bodyOk := g, saveOk := h } line.toList cs
+                                    rerun := e, dryRun := f, isTarget := t, preSaveOk := p, bodyOk := g, saveOk := h } line.toList cs
       let items := r.1.map fun
         | .ev .upToDate => "U" | .ev .evaluating => "E" | .ev .succeeded => "S" | .ev .failed => "F"
         | .print l => "P" ++ hexBytes l
